@@ -196,6 +196,8 @@ class Run:
             m = cx.model
             rec = {'inputs': self.model_inputs(cx, m),
                    'decisions': len(cx.decisions)}
+            if cx.env.get('float_uncertain'):
+                rec['float_uncertain'] = cx.env['float_uncertain']
             for k, v in cx.notes:
                 rec[k] = eval_under(m, v)
             if len(self.samples) < 3:
@@ -232,6 +234,13 @@ def eval_under(m, v):
         return _pyval(m.eval(v.t, model_completion=True)) if m is not None else repr(v)
     if isinstance(v, core.SymBool):
         return _pyval(m.eval(v.t, model_completion=True)) if m is not None else repr(v)
+    import datetime as _dtm
+    if isinstance(v, _dtm.datetime):
+        return v.isoformat()
+    if isinstance(v, _dtm.timedelta):
+        return f'{(v.days * 86400 + v.seconds) * 1000000 + v.microseconds}us'
+    if isinstance(v, (bytes, bytearray)):
+        return bytes(v).hex()
     if isinstance(v, dict):
         return {str(k): eval_under(m, x) for k, x in v.items()}
     if isinstance(v, (list, tuple)):
